@@ -183,7 +183,10 @@ CHECKS = {
         "sub-tags, inline if in both attribute orders / quote kinds, if / else-if / else in all documented spellings, loops with set / "
         "value / group / sort, nesting <= 3) are unparsed to text and rendered by the real engine from exact-size buffers into a non-empty "
         "stream, twice, in three character widths under ASan/UBSan; TLC judges every event: output = Render(ast, doc), value untouched, "
-        "only the stream's tail changed, widths agree.",
+        "only the stream's tail changed, widths agree; a node the specification does not judge stands for any text at its place (wildcard "
+        "matching), a canary event must be reported. The binding of a reference to an enclosing loop is a specification of its own "
+        "(QLoopVar: the scanner's outward walk = the innermost loop of that name on delimited references; two earlier / seeded scanner "
+        "behaviours rejected by TLC) and its whole domain (7,200 loop stacks x references) is rendered by the real engine (OracleLoopVar).",
    note="sampled ASTs (6k quick / 24k thorough); documentation-silent situations are not generated (listed in the evidence assumptions); "
         "expressions outside QExpr's exact domain make an event unjudged.",
    technique="TLA+ reference interpreter of the template language; TLC batch oracle over recorded renders of generated ASTs",
